@@ -142,6 +142,26 @@ example : Exec (V := Nat) GenF.table (GenF.table.getD 0 .skip) ⟨fun _ => 7, fu
     (.failed .retFalse) ⟨fun _ => 7, fun _ => 0, true, false⟩ := by
   show Exec GenF.table (.seq (.read [.tmp 1, .tmp 1] (some .retFalse)) (.asg .self)) _ _ _
   exact .seqFail _ _ _ _ _ (.readBadChk _ _ _ _ ⟨fun _ _ => rfl, fun _ _ _ => rfl⟩ rfl rfl)
+open Flow in
+/-- … successful ones too (hypothesis of `failed_read_is_reported`): both words read, `*this = tmp` -/
+example : Exec (V := Nat) GenF.table (GenF.table.getD 0 .skip) ⟨fun _ => 7, fun _ => 0, false, false⟩
+    .cont ⟨fun _ => 9, fun _ => 0, false, false⟩ := by
+  show Exec GenF.table (.seq (.read [.tmp 1, .tmp 1] (some .retFalse)) (.asg .self)) _ _ _
+  exact .seqCont _ _ _ ⟨fun _ => 7, fun _ => 0, false, false⟩ _ _
+    (.readOk _ _ _ _ rfl ⟨fun _ _ => rfl, fun _ _ _ => rfl⟩ rfl rfl)
+    (.asg _ _ _ ⟨fun m h => by simp [locsW, locW, W.has, W.union] at h, fun h => by simp at h⟩ rfl rfl)
+open Flow in
+/-- … and every entry that starts with a failure point has failing executions, from every state: all the
+    loads that read anything, `cache::load` (hypothesis of `weak_load_frame`), the constructors that read -/
+example {V : Type} (st : St V) :
+    ∀ n ∈ ["vita::hash_t::load", "vita::i_mep::load_impl", "vita::individual<vita::i_mep>::load",
+           "vita::team<vita::i_mep>::load", "vita::population<vita::i_mep>::load",
+           "vita::summary<vita::i_mep>::load", "vita::cache::load"],
+      ∃ st', Exec GenF.table (GenF.table.getD (GenF.names.idxOf n) .skip) st (.failed .retFalse) st' := by
+  intro n hn
+  apply exec_firstFail
+  revert n
+  decide
 
 /-! ### (b) the per-type models -/
 
